@@ -268,8 +268,11 @@ vbi_pfc_demux_feed		(vbi_pfc_demux *	dx,
 		}
 
 		ci = subno & 15;
-		if (ci != dx->ci) {
-			/* Page continuity lost, wait for new block. */
+		if (ci != dx->ci
+		    || dx->packet <= dx->n_packets) {
+			/* Page continuity lost, or the last packets of
+			   the previous page are missing: wait for new
+			   block. */
 			vbi_pfc_demux_reset (dx);
 		}
 
